@@ -641,6 +641,9 @@ pub fn build_layout_on(p: &Profile, s: &mut Src, bits: u32) -> Layout {
         // bit(n) may also be used for any one-bit non-bool field
         let (kw_bit, ranges) = if !list_syntax && !kw_bit && w == 1 && s.chance(1, 2) {
             (true, vec![Rng::bit(ranges[0].lo)])
+        } else if kw_bit && matches!(ty, FieldTy::Bool) && s.chance(1, 4) {
+            // ... and a bool may be declared over the one-bit range bits(n..=n)
+            (false, vec![Rng::new(ranges[0].lo, ranges[0].lo)])
         } else {
             (kw_bit, ranges)
         };
